@@ -485,8 +485,15 @@ class Inliner:
         if fn.name.startswith("__") and fn.name.endswith("__"):
             return None
         # a helper that calls itself (by any spelling of its own name) is never unfolded: there is no finite canonical form
-        if any(isinstance(x, ast.Call) and ((isinstance(x.func, ast.Name) and x.func.id == fn.name) or (isinstance(x.func, ast.Attribute) and x.func.attr == fn.name))
-               for x in ast.walk(fn)) or any(isinstance(x, ast.Assign) and isinstance(x.value, ast.Attribute) and x.value.attr == fn.name for x in ast.walk(fn)):
+        owner_cls = fn._parent.name if isinstance(getattr(fn, "_parent", None), ast.ClassDef) else None
+        me0 = (func_params(fn) or [None])[0] if owner_cls else None
+
+        def _own(recv):
+            # self.f / cls.f / Owner.f - the function's own name reached through its own object or class (not `self.fp.f`)
+            return isinstance(recv, ast.Name) and recv.id in {me0, owner_cls, "self", "cls"} - {None}
+
+        if any(isinstance(x, ast.Call) and ((isinstance(x.func, ast.Name) and x.func.id == fn.name) or (isinstance(x.func, ast.Attribute) and x.func.attr == fn.name and _own(x.func.value)))
+               for x in ast.walk(fn)) or any(isinstance(x, ast.Assign) and isinstance(x.value, ast.Attribute) and x.value.attr == fn.name and _own(x.value.value) for x in ast.walk(fn)):
             return None
         decos = set()
         for d in fn.decorator_list:
@@ -1125,6 +1132,32 @@ class Inliner:
                             self.inlined_calls.append(f"<moved> {cq}.{f.name} <- {qualname_of(f)}")
                             changed = True
             if changed:
+                relink(m)
+                m._symbols = None
+                self.prog._class_index = None
+        # a method of an unknown base class that every class deriving from it now defines itself is dead code in the analysed tree:
+        # it is removed so that whole-module inventories do not see the same code twice
+        all_classes = [(m, c) for m in self.prog.modules.values() for c in ast.walk(m.tree) if isinstance(c, ast.ClassDef)]
+        for m, b in all_classes:
+            if qualname_of(b) in self.inventory:
+                continue
+            derived = []
+            for m2, c in all_classes:
+                for base in c.bases:
+                    rb = self.prog.resolve_expr(m2, base) if isinstance(base, (ast.Name, ast.Attribute)) else None
+                    if isinstance(rb, DefRef) and rb.node is b:
+                        derived.append(c)
+            if not derived:
+                continue
+            removed = False
+            for f in list(b.body):
+                if isinstance(f, ast.FunctionDef) and all(any(isinstance(x, ast.FunctionDef) and x.name == f.name for x in c.body) for c in derived) \
+                        and not any(isinstance(x, ast.Name) and x.id == "super" for c in derived for g in c.body if isinstance(g, ast.FunctionDef) and g.name == f.name for x in ast.walk(g)):
+                    b.body.remove(f)
+                    removed = True
+            if removed:
+                if not b.body:
+                    b.body.append(ast.Pass())
                 relink(m)
                 m._symbols = None
                 self.prog._class_index = None
